@@ -265,9 +265,9 @@ func c08Walk(b []byte) (r c08Ref) {
 
 type c08Stats struct {
 	evals, acceptBoth, rejectBoth, oursOnly, schemaOnly atomic.Int64
-	rejWire, rejRange, outer1Wrong                       atomic.Int64
-	seenAccepted                                         atomic.Uint32
-	shards                                               [64]struct {
+	rejWire, rejRange, outer1Wrong                      atomic.Int64
+	seenAccepted                                        atomic.Uint32
+	shards                                              [64]struct {
 		sync.Mutex
 		m map[uint64]struct{}
 	}
